@@ -272,3 +272,8 @@ MUTANTS += [
     M('benign-pchk-loop-reindex', ['C05', 'C15'], PCHKC, '	of_mod2sparse_insert (pchkMatrix, 0, 0);	/* 1st row */\n	for (i = 1; i < nb_rows; i++)\n	{\n		/* for all other rows */\n		/* identity */\n		of_mod2sparse_insert (pchkMatrix, i, i);\n		/* staircase */\n		of_mod2sparse_insert (pchkMatrix, i, i - 1);\n	}',
       '	of_mod2sparse_insert (pchkMatrix, 0, 0);	/* 1st row */\n	for (i = 0; i < nb_rows - 1; i++)\n	{\n		/* for all other rows */\n		/* identity */\n		of_mod2sparse_insert (pchkMatrix, i + 1, i + 1);\n		/* staircase */\n		of_mod2sparse_insert (pchkMatrix, i + 1, i);\n	}', expect=0),
 ]
+
+MUTANTS += [
+    REV('revert-nullsym-leak-fix', 'C08', '7a98622', 'R-OWN-LOCAL'),
+    REV('revert-rs-setavail-flag', 'C10', 'ca0e02f', 'R-'),
+]
